@@ -236,6 +236,9 @@ impl Prop for C05 {
     fn shrink(&self, sc: &StreamScenario) -> Vec<StreamScenario> {
         shrink_stream(sc)
     }
+    fn preludes(&self, sc: &StreamScenario) -> Vec<StreamScenario> {
+        crate::streamprop::stream_preludes(sc)
+    }
 
     fn rule(&self) -> String {
         "Each case is one session: a frame list (library-decodable packets of all kinds, unknown type numbers, undecodable bodies, sizes 4..1020) cut into transport reads by a seeded link script (single bytes, header splits, coalesced frames, whole stream) with injected Interrupted/WouldBlock/TimedOut errors, Pending polls, stalls below and above 90 s of simulated time and early EOF; the application reads to Disconnected. The same scenario runs through the real blocking and tokio Framed. A case counts as non-trivial if at least one fault fired or at least one frame was split across reads; distinct = distinct 64-bit signature of the sequence of (event kind, offset of the segment start within its frame, log2 size, frames completed by the read, result class).".into()
